@@ -65,7 +65,31 @@ def run(rep):
     rep.assumptions = ASSUME
     sweep.drive(rep, with_constants(runs(rep.tier)), "C01", n_variants=1 if rep.tier == "quick" else 2)
     rep.exhaustive = False
+    # code -> spec: executions with the real seeded shuffle and real thread / process pools, validated by SweepTrace.tla
+    traces = sweep.record_real_runs(rep.seed, 24 if rep.tier == "quick" else 120)
+    # binding self-test: a recorded execution with two output slots swapped / a call repeated must be rejected
+    import copy
+    bad = copy.deepcopy([t for t in traces if len(t["out"]) >= 3][:2])
+    bad[0]["out"][0], bad[0]["out"][1] = bad[0]["out"][1], bad[0]["out"][0]
+    bad[1]["calls"] = bad[1]["calls"][:-1] + [bad[1]["calls"][0]]
+    rej_bad, _ = sweep.validate_traces(rep, bad, name="SweepTraceSelf")
+    if len(rej_bad) != 2:
+        from .. import tlc
+        raise tlc.TLCError("binding self-test failed: corrupted traces were accepted by SweepTrace.tla")
+    rep.note("binding self-test: 2 corrupted recorded executions rejected by SweepTrace.tla")
+    rejected, r = sweep.validate_traces(rep, traces)
+    rep.traces += len(traces) - len(rejected)
+    rep.extra["real_nondeterminism_traces"] = dict(recorded=len(traces), accepted=len(traces) - len(rejected),
+                                                   kinds=sorted({t["how"] for t in traces}))
+    for i, t in rejected:
+        rep.add_violation(dict(kind="trace", trace=t), "recorded execution (%s, shuffle=%s) is not a behaviour of Sweep.tla: calls=%r out=%r" % (
+            t["how"], t["shuffle"], t["calls"], t["out"]), key=dict(kind="trace", how=t["how"]))
 
 
 def replay(rep, saved):
+    if saved.get("kind") == "trace":
+        rejected, r = sweep.validate_traces(rep, [saved["trace"]])
+        for i, t in rejected:
+            rep.add_violation(saved, "recorded execution is not a behaviour of Sweep.tla")
+        return
     sweep.replay_saved(rep, saved)
